@@ -217,11 +217,15 @@ class Conn:
 
     # -- client side actions
     def feed(self, data: bytes) -> None:
+        if not data:  # nothing arrived; EOF is eof()
+            self.sched.run()
+            return
         self.sched.spawn(self.inq.put(data), "feed")
         self.sched.run()
 
     def eof(self) -> None:
-        self.feed(b"")
+        self.sched.spawn(self.inq.put(b""), "eof")
+        self.sched.run()
 
     def reset(self) -> None:
         """Connection reset: the read raises, the loop ends without a final empty read."""
